@@ -44,6 +44,9 @@ def frame (b : Bytes) : Bytes :=
   let temp := (if b.length ≤ 253 then natToLE 1 b.length else 254 :: natToLE 3 b.length) ++ b
   if temp.length % 4 ≠ 0 then temp ++ List.replicate (4 - temp.length % 4) 0 else temp
 
+/-- `serialize_field` on a `bytes` value: the 3-byte length `to_bytes(3, 'little')` raises OverflowError from 2^24 bytes on. -/
+def frame? (b : Bytes) : Option Bytes := if b.length < 2 ^ 24 then some (frame b) else none
+
 /-- framing reader of `deserialize`: content, declared length, bytes consumed (header, data, padding). -/
 def readFrame (d : Bytes) : Bytes × Nat × Nat :=
   if d.take 1 = [254] then
@@ -91,7 +94,7 @@ def serOne (T : Table) (serObj : Ctor → Fields → Bool → Option Bytes) (e :
       | .obj (some n) fs => (T.byName n).bind (fun c => (serObj c fs true).map some)
       | .bytes b => some (some b)
       | _ => some none
-    raw.map (fun r => match r with | some b => frame b | none => [])
+    raw.bind (fun r => match r with | some b => frame? b | none => some [])
   | .bare n =>
     match T.byName n with
     | some c => (objFields? c v).bind (fun fs => serObj c fs false)
